@@ -1191,10 +1191,10 @@ impl Set {
         let right_size_max = right.size().max().cloned().unwrap_or(<i64 as Bound>::max());
         // TODO Improve this
         match operator {
-            SetOperator::Union => Integer::from_interval(
-                left_size_max.min(right_size_max),
-                left_size_max + right_size_max,
-            ),
+            // Both inputs can be empty, and the sizes can be unbounded
+            SetOperator::Union => {
+                Integer::from_interval(0, left_size_max.saturating_add(right_size_max))
+            }
             SetOperator::Except => Integer::from_interval(0, left_size_max),
             SetOperator::Intersect => Integer::from_interval(0, left_size_max.min(right_size_max)),
         }
